@@ -78,7 +78,7 @@ func c13writers(c *an.Ctx) {
 		{"clientV2", "MessageCount", []string{"(*nsqd.clientV2).SendingMessage"}},
 		{"clientV2", "FinishCount", []string{"(*nsqd.clientV2).FinishedMessage"}},
 		{"clientV2", "RequeueCount", []string{"(*nsqd.clientV2).RequeuedMessage"}},
-		{"clientV2", "ReadyCount", []string{"(*nsqd.clientV2).SetReadyCount"}},
+		{"clientV2", "ReadyCount", []string{"(*nsqd.clientV2).SetReadyCount", "?(*nsqd.clientV2).StartClose"}}, // StartClose may write the 0 of CLS itself (C03.cls decides that it is 0)
 		{"clientV2", "pubCounts", []string{"(*nsqd.clientV2).PublishedMessage"}},
 	}
 	for _, row := range table {
@@ -89,7 +89,11 @@ func c13writers(c *an.Ctx) {
 		}
 		got := counterWriters(c, f)
 		want := map[string]bool{}
-		for _, w := range row.writers {
+		for i, w := range row.writers {
+			if strings.HasPrefix(w, "?") { // optional writer
+				w = w[1:]
+				row.writers = append(append([]string{}, row.writers[:i]...), row.writers[i+1:]...)
+			}
 			want[w] = true
 		}
 		var names []string
